@@ -24,7 +24,7 @@ func init() { register(c19{}) }
 
 func (c19) ID() string { return "C19" }
 func (c19) Rule() string {
-	return "systematic: (1) And/Or truth tables for every arity 0..3 x every assignment of constant leaf filters, Not x {T,F}; (2) every location of gen.Universe(L=5|6, arity<=3) as the single feature x every bound pair (l,u) in [-1,L+1]^2 incl. zero-length and reversed bounds x {Within,Overlap}, and x {ForwardStrand,ReverseStrand}; (3) the order axioms of LocationLess on a location universe (quick: Universe(4,3)+80 random = ~320, thorough: Universe(5,3)+60 random = ~620): one case per ordered pair (a,b) checking irreflexivity (a==b), asymmetry, and transitivity through every c of the universe, plus that a forward contiguous residue part that starts and ends before another is less. seeded: (4) tables of 0..8 features (keys {a,b,gene,source}, qualifier names {a,b,n,ab} incl. repeated names merged into multi-valued qualifiers, values {'',a,b,ab,ba,aab,c,n,a=b,=,b=a=n}, locations gen.RandLoc over 12 residues, both strands, joins/orders, nesting<=3, sites, ambiguous spans) x a filter expression: either a selector assembled from (key, 0..3 clauses (name, regexp)) with regexps {'',a,^a$,a|b,[ab]+,.,^$,b$,^ab,n,c,\\w,a\\.?b,\\bb,[ab]\\w*,a=b,=,b=,=a=|c} (backslash escapes that do not precede a '/'; regexps that hold '=' themselves) or a random And/Or/Not tree (depth<=3, arity 0..3) over Key, Qualifier, Selector, Within, Overlap, ForwardStrand, ReverseStrand and constant leaves; the filter is applied to every feature and through FeatureSlice.Filter; (5) insertion sequences of 0..9 features into an empty table through FeatureSlice.Insert only (20% source keys, locations from the universe and gen.RandLoc, many ties). Oracle: selector structure is known from assembly; accept iff key empty or equal and every clause holds (named+regexp: some value of that qualifier matches (regexp.MatchString); named only: the qualifier is present; unnamed: some value of any qualifier matches); And=all (true for none), Or=some (false for none), Not; Within = every part l<=Lo&&Hi<=u, Overlap = some part Lo<u&&l<Hi on the model's part spans, forward/reverse = every part on that strand; don't-cares evaluated under both readings and either accepted: zero-length sites (as zero-length spans / ignored), bounds with u<=l (swapped / denoting nothing). Filter == accepted features in table order, deep-equal, table unaltered. Insert: result multiset == old + new (deep-equal), no source after a non-source, no later non-source location LocationLess than an earlier one. The empty clause also stands last, closed by a slash ('key//'). Not generated (statement silent): an escaped slash '\\/', a bare trailing slash 'key/', qualifier entries without any value, tables holding two Props entries of the same name, invalid regexps. non-trivial: table non-empty and the filter is not a constant / pair of different locations / sequence of >=2 insertions; distinct: canonical case text. Keys that differ in case only (a/A, gene/Gene); gts select with a second selector whose text extends the first one's. A fifth of the inserted features repeat an earlier one word for word; gts select with a selector that accepts the source feature, also under -v."
+	return "systematic: (1) And/Or truth tables for every arity 0..3 x every assignment of constant leaf filters, Not x {T,F}; (2) every location of gen.Universe(L=5|6, arity<=3) as the single feature x every bound pair (l,u) in [-1,L+1]^2 incl. zero-length and reversed bounds x {Within,Overlap}, and x {ForwardStrand,ReverseStrand}; (3) the order axioms of LocationLess on a location universe (quick: Universe(4,3)+80 random = ~320, thorough: Universe(5,3)+60 random = ~620): one case per ordered pair (a,b) checking irreflexivity (a==b), asymmetry, and transitivity through every c of the universe, plus that a forward contiguous residue part that starts and ends before another is less. seeded: (4) tables of 0..8 features (keys {a,b,gene,source}, qualifier names {a,b,n,ab} incl. repeated names merged into multi-valued qualifiers, values {'',a,b,ab,ba,aab,c,n,a=b,=,b=a=n}, locations gen.RandLoc over 12 residues, both strands, joins/orders, nesting<=3, sites, ambiguous spans) x a filter expression: either a selector assembled from (key, 0..3 clauses (name, regexp)) with regexps {'',a,^a$,a|b,[ab]+,.,^$,b$,^ab,n,c,\\w,a\\.?b,\\bb,[ab]\\w*,a=b,=,b=,=a=|c} (backslash escapes that do not precede a '/'; regexps that hold '=' themselves) or a random And/Or/Not tree (depth<=3, arity 0..3) over Key, Qualifier, Selector, Within, Overlap, ForwardStrand, ReverseStrand and constant leaves; the filter is applied to every feature and through FeatureSlice.Filter; (5) insertion sequences of 0..9 features into an empty table through FeatureSlice.Insert only (20% source keys, locations from the universe and gen.RandLoc, many ties). Oracle: selector structure is known from assembly; accept iff key empty or equal and every clause holds (named+regexp: some value of that qualifier matches (regexp.MatchString); named only: the qualifier is present; unnamed: some value of any qualifier matches); And=all (true for none), Or=some (false for none), Not; Within = every part l<=Lo&&Hi<=u, Overlap = some part Lo<u&&l<Hi on the model's part spans, forward/reverse = every part on that strand; don't-cares evaluated under both readings and either accepted: zero-length sites (as zero-length spans / ignored), bounds with u<=l (swapped / denoting nothing). Filter == accepted features in table order, deep-equal, table unaltered. Insert: result multiset == old + new (deep-equal), no source after a non-source, no later non-source location LocationLess than an earlier one. The empty clause also stands last, closed by a slash ('key//'). Not generated (statement silent): an escaped slash '\\/', a bare trailing slash 'key/', qualifier entries without any value, tables holding two Props entries of the same name, invalid regexps. non-trivial: table non-empty and the filter is not a constant / pair of different locations / sequence of >=2 insertions; distinct: canonical case text. Keys that differ in case only (a/A, gene/Gene); gts select with a second selector whose text extends the first one's. A fifth of the inserted features repeat an earlier one word for word; gts select with a selector that accepts the source feature, also under -v. gts select with the empty selector."
 }
 
 func (c19) RequiredBuckets(tier string) []string {
@@ -49,7 +49,7 @@ func (c19) RequiredBuckets(tier string) []string {
 		}
 		out = append(out, op+"|true", op+"|false")
 	}
-	return append(out, "cli:select", "cli:select -v", "cli:select -s", "cli:select cache-on", "cli:select selector with outer blank", "cli:select selector that extends another one's text", "cli:select selector that accepts the source feature", "insert:identical-feature-entered-again")
+	return append(out, "cli:select", "cli:select -v", "cli:select -s", "cli:select cache-on", "cli:select selector with outer blank", "cli:select selector that extends another one's text", "cli:select selector that accepts the source feature", "cli:select empty selector", "insert:identical-feature-entered-again")
 }
 
 func (c19) Findings() []fw.Finding {
